@@ -168,7 +168,7 @@ econf_err getBoolValueNum(econf_file key_file, size_t num, bool *result) {
     return ECONF_KEY_HAS_NULL_VALUE;
   tmp = strdup(key_file.file_entry[num].value);
   value = toLowerCase(tmp);
-  size_t hash = hashstring(toLowerCase(key_file.file_entry[num].value));
+  size_t hash = hashstring(value);
   econf_err err = ECONF_SUCCESS;
 
   if ((*value == '1' && strlen(tmp) == 1) || hash == YES || hash == TRUE)
